@@ -129,6 +129,22 @@ CLAIMED["C13"] = (
     "TLA+ grammar (hundreds of thousands of fragmentations).", "3 C13",
     "A difference between the whole-feed result and the grammar's abstract result that is the same for every fragmentation is "
     "recorded as a divergence, not an alarm (the property is about fragmentation only).")
+CLAIMED["C15"] = (
+    "TLA+ specs specs/http/Sse.tla (event-stream dispatch rules over line kinds with per-line terminators CRLF|LF|CR; invariants "
+    "EventsHaveData/IdPersists/LeidIsLastId) and specs/http/LineFrame.tla with terminators (CRLF, LF, CR) (Confluent for every string "
+    "<= 6 and every fragmentation): TLC exhaustive MC; every generated stream (all short + tlc -simulate long ones) concretised and fed "
+    "to a real EventSource and a real Respondent (plain and inside chunked coding) whole, bytewise, in every 1-cut / 2-cut, events, "
+    "last event id and retry compared with the model's dispatch (spec->code)",
+    "Exhaustive model checking of dispatch and of byte-level line framing within the bounds plus conformance of the real event "
+    "source and response parser on every generated stream under every fragmentation of the stated kinds.", "3 C15", "")
+CLAIMED["C17"] = (
+    "TLA+ spec specs/http/ChunkFrame.tla (encoder and receiver state machine of chunked coding: RoundTrip for every body, division "
+    "into chunks, extensions and trailers; classification of every chunk-size string over {0,1,a,-,+,x,_,blank} into accept/reject/"
+    "don't-care): TLC exhaustive MC; every coding case serialised with the real packChunk and decoded by the real parseChunk, "
+    "Requestant and Respondent whole, bytewise and in every 1-cut; every size string placed in an otherwise valid message: accepted "
+    "ones must decode exactly that many bytes, rejected ones must be reported as an error (spec->code)",
+    "Exhaustive model checking of the coding round trip and of the size classification within the bounds plus conformance of the "
+    "three real decoders on every case.", "3 C17", "")
 NA = {
  "C28": "pure value-fidelity of json/cbor2/msgpack + dataclass reflection: no state/transition structure for a TLA+ model to decide (DESIGN.md section 4)",
 }
